@@ -422,6 +422,20 @@ impl<'a> St<'a> {
         match f {
             Fault::StaleBucket | Fault::FutureBucket => {
                 let id = if f == Fault::StaleBucket {
+                    if self.dead_buckets().is_empty() || g.chance(1, 2) {
+                        // make one: a bucket that is put back (or deposited) right now
+                        if self.live_buckets(true).is_empty() {
+                            self.withdraw(g);
+                            self.take(g);
+                        }
+                        if let Some(b) = self.live_buckets(true).last().copied() {
+                            if g.bool() {
+                                self.return_bucket(b);
+                            } else {
+                                self.deposit_bucket(g, b);
+                            }
+                        }
+                    }
                     let d = self.dead_buckets();
                     if d.is_empty() {
                         return false;
@@ -452,6 +466,35 @@ impl<'a> St<'a> {
             }
             Fault::StaleProof | Fault::FutureProof => {
                 let id = if f == Fault::StaleProof {
+                    if self.dead_proofs().is_empty() || g.chance(1, 2) {
+                        // make one: a proof that is dropped right now (singly or by a bulk drop)
+                        if self.live_proofs().is_empty() {
+                            if self.live_buckets(false).is_empty() {
+                                self.withdraw(g);
+                                self.take(g);
+                            }
+                            self.new_proof(g);
+                        }
+                        if !self.live_proofs().is_empty() {
+                            match g.below(3) {
+                                0 => {
+                                    self.drop_proof(g);
+                                }
+                                1 => {
+                                    self.ins.push(InstructionV2::DropNamedProofs(DropNamedProofs));
+                                    self.drop_all_named();
+                                    self.log.push("drop_named_proofs".into());
+                                }
+                                _ => {
+                                    self.ins.push(InstructionV2::DropAllProofs(DropAllProofs));
+                                    self.drop_all_named();
+                                    self.clear_auth_zone();
+                                    self.signatures_dropped = true;
+                                    self.log.push("drop_all_proofs".into());
+                                }
+                            }
+                        }
+                    }
                     let d = self.dead_proofs();
                     if d.is_empty() {
                         return false;
@@ -551,7 +594,8 @@ fn id_error(e: &RuntimeError) -> Option<&'static str> {
 fn case(g: &mut Gen) -> Outcome {
     with_world(WORLD_KEY, no_genesis, build, |w| {
         let ext = w.ext::<Rc<Ext>>().clone();
-        let fault = if g.bool() { Some(*g.pick(&FAULTS)) } else { None };
+        // stale ids are what a validator that forgets a consumption lets through: weighted up
+        let fault = if g.bool() { Some(FAULTS[[0, 3, 5, 2, 1, 4, 6, 7, 8, 0, 3, 0, 3, 5, 2][g.index(15)]]) } else { None };
         let v2 = g.bool();
         let wref: &World = w;
         let mut s = St {
